@@ -341,6 +341,11 @@ pub fn run(ctx: &mut Ctx, which: Which) {
                 if !was_present && was_pending && Some(*nid) != op_key.filter(|_| status_report.is_some()) {
                     stamps.insert(*nid, 2 * opn - 1);
                 }
+                // became a pending candidate and was let in within this very operation (pending timeout
+                // already over when the table was next looked at): its admission is its latest status report
+                if !was_present && !was_pending && status_report.is_none() && Some(*nid) == op_key {
+                    stamps.insert(*nid, 2 * opn);
+                }
             }
         }
         if let Some((k, _)) = status_report {
